@@ -62,6 +62,12 @@ PARTS = {
     "ctor": {"check": ctor_check, "strategy": lambda tier: ctor_cases, "budget": {"quick": 2000, "thorough": 20000}},
 }
 
+def _deep_strategy(tier):
+    # deep, mostly uncrossed books with many cancels from the middle (and of the best order)
+    return market_cases(max_ops=60 if tier == "quick" else 300, market_frac=1, deep=True, toggles=False)
+
+
+PARTS["deep"] = {"check": make_check({"C04"}, _nt), "strategy": _deep_strategy, "budget": {"quick": 2000, "thorough": 60000}}
 PARTS["fuzz"] = fuzz_part("C04", {"C04"}, _nt)
 
 
